@@ -22,7 +22,7 @@
    "\na" and "\nbc": the engine glues a one-byte line to the previous one).  That is a
    length side channel of one bit per line, not content; it is stated, not hidden. *)
 From Errv Require Import Base.Str Redact.Markers Redact.Buffer Model.Err Model.Sem Model.Report Model.Details Model.Codec Model.Build
-     Proofs.RedactFacts Proofs.RedactWf Proofs.EngineWf Proofs.EngineNI Proofs.DetailsNI Proofs.ApiWf Proofs.ApiNI.
+     Proofs.RedactFacts Proofs.RedactWf Proofs.EngineWf Proofs.EngineNI Proofs.DetailsNI Proofs.ApiWf Proofs.ApiNI Proofs.ApiNITransfer.
 
 (* ---- non-interference for ARBITRARY BYTES (Proofs/RedactWf.v): what Redact()
    leaves of a printf call does not depend on the content of an unsafe argument,
@@ -169,6 +169,37 @@ Print Assumptions C03_api_fragment.
 Example C03_api_example :
   req ni_r1 ni_r2 /\ strs_ok ni_r1 = true /\ strs_ok ni_r2 = true /\ stacks_ok ex_env.
 Proof. split; [exact ni_ex_req|exact ni_ex_hyps]. Qed.
+
+(* ---- across network transfers (Proofs/ApiNITransfer.v).  At a process that does not know a type the node becomes an
+   opaque stand-in that keeps the FULL wire payload, so [ueq] (payloads of opaque nodes equal) is too strong after a
+   hop.  [ueqT] relates the payloads of opaque nodes only in what the engine reads (type names, reportable strings,
+   payload type); [encT] is the relation on wire messages (per type family: which decoder reads which string).
+   The engine theorems hold for [ueqT]; decoding through ANY process maps related messages to related errors. ---- *)
+Theorem C03_transfer_engine : forall e1 e2, ueqT e1 e2 ->
+  (sh_ok e1 -> sh_ok e2 -> redact (fmt_red_short e1) = redact (fmt_red_short e2)) /\
+  (vb_ok e1 -> vb_ok e2 -> glue_top e1 -> glue_top e2 -> redact (fmt_red_verbose e1) = redact (fmt_red_verbose e2)).
+Proof. intros e1 e2 U. split; [exact (ni_short_T e1 e2 U)|exact (ni_verbose_T e1 e2 U)]. Qed.
+Print Assumptions C03_transfer_engine.
+
+Theorem C03_transfer_decode : forall p x1 x2, encT x1 x2 ->
+  forall n1 n2, ueqT (fst (decode p x1 n1)) (fst (decode p x2 n2)).
+Proof. exact decode_T. Qed.
+Print Assumptions C03_transfer_decode.
+
+Theorem C03_transfer_weakens_ueq : forall e1 e2, ueq e1 e2 -> ueqT e1 e2.
+Proof. intros e1 e2. exact (ueq_ueqT e1 e2). Qed.
+Print Assumptions C03_transfer_weakens_ueq.
+
+(* the per-family relation on wire messages is needed: NO relation that contains [ueq] is both preserved by every
+   hop and sufficient for equal redacted renderings (the witness is the one-byte-line channel of
+   C03_line_length_observable carried in the message of an opaque errorString node) *)
+Theorem C03_transfer_no_uniform_relation :
+  ~ exists R : err -> err -> Prop,
+      (forall e1 e2, ueq e1 e2 -> R e1 e2) /\
+      (forall p e1 e2 n, R e1 e2 -> R (fst (hop p e1 n)) (fst (hop p e2 n))) /\
+      (forall e1 e2, R e1 e2 -> sh_ok e1 -> sh_ok e2 -> redact (fmt_red_short e1) = redact (fmt_red_short e2)).
+Proof. exact no_hop_closed_relation_above_ueq. Qed.
+Print Assumptions C03_transfer_no_uniform_relation.
 
 (* an evaluated instance: hint, prefix, secondary error, opaque leaf with different unsafe contents *)
 Example C03_engine_example :
